@@ -13,7 +13,7 @@ RULE = ("single eps-NFA/NFA/DFA operands and ordered pairs (equal / overlapping 
         "language equivalence with the reference operation on the extracted operands; operands must be unchanged. "
         "Non-trivial: both operands have >=1 transition and a non-empty, non-universal language for at least one; "
         "distinct = canonical hash of the pair.")
-ASSUMPTIONS = ["union/concatenate/kleene_star go through regular expressions: their operands use regex-safe token symbols (as C06)"]
+ASSUMPTIONS = ["union/concatenate/kleene_star go through regular expressions: on operands whose symbol values are not regex tokens they are driven too, and fail as the known finding C03-rational-operations-spell-symbols-as-regex-text says"]
 TIERS = {
     "quick": {"workers": 4, "random": 1200},
     "thorough": {"workers": 16, "random": 12000, "pytest": True, "hard_timeout": 3000},
@@ -55,7 +55,15 @@ def tags_one(r, who="recv"):
         t.append(who + "_has_TrashNode")
     if str_collision(r):
         t.append("state_str_collision")
+    if any(not regex_token(a) for a in r.alpha):
+        t.append("symbol_not_a_regex_token")
     return t
+
+
+def regex_token(a):
+    """a symbol value that a regular expression can spell: a non-empty text without blanks and operator characters that
+    is not one of the spellings of the empty word"""
+    return isinstance(a, str) and a != "" and a not in ("epsilon", "$") and not any(ch in a for ch in " .|+*()\\$\t\n")
 
 
 def is_fa(x):
@@ -201,6 +209,12 @@ def run_case(c, stats):
         call(A.concatenate, B)
         call(A.kleene_star)
         call(B.concatenate, A)
+    elif (len(c["a"]["trans"]) + len(ra.states)) % 5 == 1:
+        # symbol values that are not regular-expression tokens (ints, tuples, the empty text): see known finding
+        stats.cls("rational_ops_on_any_symbols")
+        call(A.union, B)
+        call(A.concatenate, B)
+        call(A.kleene_star)
     if (len(c["a"]["trans"]) + len(ra.states)) % 4 == 0:
         # a second operation on each result: what a result says about itself (alphabet, states, start and final
         # states) is what the next operation works from
